@@ -135,8 +135,11 @@ class C17(Spec):
                 continue
             v = got[0]
             arr = np.asarray(v)
-            rows = arr.reshape(arr.shape[0], -1) if arr.ndim >= 1 else arr.reshape(1, -1)
-            fwd = ';'.join(ilist([int(round(x * SCALE)) for x in r]) for r in rows.tolist())
+            if arr.size == 0:
+                fwd = 'empty'
+            else:
+                rows = arr.reshape(arr.shape[0], -1) if arr.ndim >= 1 else arr.reshape(1, -1)
+                fwd = ';'.join(ilist([int(round(x * SCALE)) for x in r]) for r in rows.tolist())
             line = f'ok mask={mask} fwd={fwd} shape={ilist(arr.shape)}'
             if b['annot']:
                 if not isinstance(v, P.PipelineData):
@@ -156,6 +159,8 @@ class C17(Spec):
         return out
 
     def oracle(self, c, out):
+        if out and out[0].startswith('HARNESS-EXC'):
+            return out[0]
         if len(out) != 1 + len(c['batches']):
             return f'adapter produced {len(out)} lines'
         alive = True
@@ -192,6 +197,8 @@ class C17(Spec):
                 continue
             if f.get('fwd') == 'none':
                 return f'batch {n}: {len(keep)} epochs accepted but nothing was forwarded'
+            if f['fwd'] == 'empty':
+                return f'batch {n}: an empty array was forwarded'
             got = [[int(v) for v in r.split(',')] for r in f['fwd'].split(';')]
             if got != keep:
                 return f'batch {n}: forwarded {got}, accepted epochs in order are {keep}'
